@@ -157,18 +157,25 @@ def run_case(case):
                         'identity-like': np.array([[i if i != s % n else (i + 1) % n for i in range(n)] for s in range(ns)]),
                         'seeded-table': alpha.rng('c13tab', n, ns).integers(0, n, size=(ns, n)),
                         'onehot+': np.array([[s % n] * (n - 1) + [(s // n + s) % n] for s in range(ns)]),
+                        # "any table at all": rows with fewer / more draws than there are configurations
+                        'short-rows': np.array([[(i + 2 * s) % n for i in range(max(1, n - 2))] for s in range(ns)]),
+                        'long-rows': np.array([[(i * i + s) % n for i in range(n + 3)] for s in range(ns)]),
+                        'single-draw': np.array([[s % n] for s in range(ns)]),
                     }
                     for tn, tab in tables.items():
                         sub = dict(case, ik=ik, d=d, ns=ns, table=tn)
                         if 'table' in case and (case['ik'], case['d'], case['ns'], case['table']) != (ik, d, ns, tn):
                             continue
                         b = o.export_bootstrap(ns, random_numbers=tab)
-                        exp = np.array([o.value] + [math.fsum(x[i] for i in row) / n for row in tab])
+                        exp = np.array([o.value] + [math.fsum(x[i] for i in row) / len(row) for row in tab])
                         sc = max(np.max(np.abs(x)), 1e-300)
                         if b.shape != (ns + 1,) or not np.all(np.abs(b - exp) <= 1e-13 * sc) or b[0] != o.value:
                             acc.fail('bootstrap:export', sub, 'n=%d %s %s ns=%d table=%s: rows differ from resampled means by %g' % (n, ik, d, ns, tn, np.max(np.abs(b - exp))))
                             continue
                         # import
+                        if tab.shape[1] != n:
+                            acc.ok(('b-exp', n, ik, d, ns, tn), True, 'export-ok(rows of another length)')
+                            continue
                         if ns < n:
                             try:
                                 pe.import_bootstrap(b, 'A|r1', tab)
